@@ -1,2 +1,3 @@
 import MirModel.Basic
 import MirModel.Scores
+import MirModel.Matching
